@@ -125,6 +125,10 @@ type Exec struct {
 	opaqueN       int
 	fmtSymbolic   int
 	unknownBranch bool
+	bounds        symBounds
+	pendingSigned []*Term
+	pcSet         map[int]bool
+	Pruned        int
 
 	// results
 	Paths       int
@@ -277,12 +281,35 @@ func (x *Exec) note(s string) {
 	}
 }
 
+// addPC appends a conjunct to the path condition and updates the cheap indexes.
+func (x *Exec) addPC(c *Term) {
+	x.pc = append(x.pc, c)
+	x.pcSet[c.ID] = true
+	x.learn(c)
+}
+
+// quick decides c from the path condition's syntax and interval bounds: 1, 0 or -1 (ask the solver).
+func (x *Exec) quick(c *Term) int {
+	if x.pcSet[c.ID] {
+		return 1
+	}
+	if x.pcSet[x.ts.Not(c).ID] {
+		return 0
+	}
+	return x.decide(c, map[int]ival{})
+}
+
 // Branch decides a symbolic condition for this path, scheduling the other side if feasible.
 func (x *Exec) Branch(c *Term) bool {
 	if c.IsConst() {
 		return c.C == 1
 	}
 	ts := x.ts
+	if q := x.quick(c); q >= 0 {
+		// decided without the solver; deterministic on re-execution (depends on the path condition only)
+		x.Pruned++
+		return q == 1
+	}
 	if x.pos < len(x.dec) {
 		d := x.dec[x.pos]
 		if d.kind != 'b' {
@@ -290,9 +317,9 @@ func (x *Exec) Branch(c *Term) bool {
 		}
 		x.pos++
 		if d.choice {
-			x.pc = append(x.pc, c)
+			x.addPC(c)
 		} else {
-			x.pc = append(x.pc, ts.Not(c))
+			x.addPC(ts.Not(c))
 		}
 		if x.pos == len(x.dec) && d.altModel != nil {
 			x.setModel(d.altModel)
@@ -345,9 +372,9 @@ func (x *Exec) Branch(c *Term) bool {
 	x.dec = append(x.dec, d)
 	x.pos++
 	if d.choice {
-		x.pc = append(x.pc, c)
+		x.addPC(c)
 	} else {
-		x.pc = append(x.pc, ts.Not(c))
+		x.addPC(ts.Not(c))
 	}
 	return d.choice
 }
@@ -363,7 +390,7 @@ func (x *Exec) Assume(c *Term, what string) {
 	}
 	if x.pos < len(x.dec) {
 		x.pos++
-		x.pc = append(x.pc, c)
+		x.addPC(c)
 		if x.pos == len(x.dec) && x.dec[x.pos-1].altModel != nil {
 			x.setModel(x.dec[x.pos-1].altModel)
 		}
@@ -386,7 +413,7 @@ func (x *Exec) Assume(c *Term, what string) {
 	}
 	x.dec = append(x.dec, d)
 	x.pos++
-	x.pc = append(x.pc, c)
+	x.addPC(c)
 }
 
 // Assert checks that c holds for every input reaching this point.
@@ -398,7 +425,7 @@ func (x *Exec) Assert(c *Term, tag string) {
 	if x.pos < len(x.dec) {
 		// already decided on an earlier run of this prefix
 		x.pos++
-		x.pc = append(x.pc, c)
+		x.addPC(c)
 		if x.pos == len(x.dec) && x.dec[x.pos-1].altModel != nil {
 			x.setModel(x.dec[x.pos-1].altModel)
 		}
@@ -440,7 +467,7 @@ func (x *Exec) Assert(c *Term, tag string) {
 	}
 	x.dec = append(x.dec, d)
 	x.pos++
-	x.pc = append(x.pc, c)
+	x.addPC(c)
 }
 
 func (x *Exec) violation(tag string, m *Model) {
@@ -475,9 +502,9 @@ func (x *Exec) Concretize(t *Term, what string) int64 {
 			k := ts.BV(d.val, t.W)
 			cond := ts.Eq(t, k)
 			if d.choice {
-				x.pc = append(x.pc, cond)
+				x.addPC(cond)
 			} else {
-				x.pc = append(x.pc, ts.Not(cond))
+				x.addPC(ts.Not(cond))
 			}
 			if x.pos == len(x.dec) && d.altModel != nil {
 				x.setModel(d.altModel)
@@ -515,7 +542,7 @@ func (x *Exec) Concretize(t *Term, what string) int64 {
 		}
 		x.dec = append(x.dec, d)
 		x.pos++
-		x.pc = append(x.pc, cond)
+		x.addPC(cond)
 		return k.Int()
 	}
 }
@@ -921,6 +948,9 @@ func (x *Exec) resetPath() {
 	x.nowN = 0
 	x.lastNow = [2]*Term{}
 	x.unknownBranch = false
+	x.bounds = nil
+	x.pendingSigned = nil
+	x.pcSet = map[int]bool{}
 	x.allocMax = 0
 	x.pathNotes = nil
 	x.aborting = false
